@@ -39,6 +39,7 @@ struct Stats {
     short_reads: u64,
     eintrs: u64,
     rl_err_propagated: u64,
+    checks_ok: [u64; 24],
     lay_written: Vec<u64>,
     lay_read: Vec<u64>,
     cell_fswr: Vec<u64>,
@@ -49,7 +50,7 @@ struct Stats {
     max_stream: usize,
     max_records: usize,
 }
-const FSWR_CELLS: usize = 10 * 10 * 14 * 16;
+const FSWR_CELLS: usize = 10 * 12 * 14 * 16;
 const FAULT_CELLS: usize = 10 * 3 * 16;
 impl Stats {
     fn new(nlay: usize) -> Stats {
@@ -66,6 +67,7 @@ impl Stats {
             short_reads: 0,
             eintrs: 0,
             rl_err_propagated: 0,
+            checks_ok: [0; 24],
             lay_written: vec![0; nlay],
             lay_read: vec![0; nlay],
             cell_fswr: vec![0; (FSWR_CELLS + 63) / 64],
@@ -93,6 +95,9 @@ impl Stats {
         self.short_reads += o.short_reads;
         self.eintrs += o.eintrs;
         self.rl_err_propagated += o.rl_err_propagated;
+        for i in 0..24 {
+            self.checks_ok[i] += o.checks_ok[i];
+        }
         for (a, b) in self.lay_written.iter_mut().zip(o.lay_written) {
             *a += b;
         }
@@ -273,6 +278,9 @@ fn one_run(world: &World, t: Trace, tier: Tier, known: &[Known], st: &mut Stats)
     };
     dg.u64(w.digest);
     st.steps += w.steps;
+    for i in 0..24 {
+        st.checks_ok[i] += w.ok[i] as u64;
+    }
     st.records_written += t.records.len() as u64;
     st.max_stream = st.max_stream.max(w.medium.len());
     let mut sensitive = false;
@@ -280,7 +288,7 @@ fn one_run(world: &World, t: Trace, tier: Tier, known: &[Known], st: &mut Stats)
         let o = &world.table[r.w_lay as usize];
         st.lay_written[r.w_lay as usize] += 1;
         st.lay_read[r.r_lay as usize] += 1;
-        set_bit(&mut st.cell_fswr, (((o.fam as usize * 10 + r.shape as usize) * 14) + r.writer as usize) * 16 + r.reader as usize);
+        set_bit(&mut st.cell_fswr, (((o.fam as usize * 12 + r.shape as usize) * 14) + r.writer as usize) * 16 + r.reader as usize);
         sensitive |= r.vals.iter().any(|v| endian_sensitive(*v, o.w));
     }
     let plan = fault_plan(&t, w.medium.len(), tier);
@@ -294,6 +302,9 @@ fn one_run(world: &World, t: Trace, tier: Tier, known: &[Known], st: &mut Stats)
         st.short_reads += p.stats.short_reads as u64;
         st.eintrs += p.stats.eintrs as u64;
         st.rl_err_propagated += p.stats.rl_err_propagated as u64;
+        for i in 0..24 {
+            st.checks_ok[i] += p.ok[i] as u64;
+        }
         st.fault_configured[f.kind()] += 1;
         if p.stats.fired {
             st.fault_fired[f.kind()] += 1;
@@ -914,6 +925,25 @@ fn cmd_run(world: &World, args: &Args) -> i32 {
                 "real_code": ["substrate-fixed derived Encode/Decode/MaxEncodedLen/TypeInfo for FixedI8..FixedU128 (incl. derive-generated decode_into)", "substrate-fixed from_bits/to_bits/{from,to}_{le,be,ne}_bytes (inherent and Fixed-trait)", "substrate-fixed Wrapping::{from_bits,to_bits}", "substrate-fixed serde Serialize/Deserialize impls (Fixed*, Wrapping)", "parity-scale-codec 3.7.5 integer/array/Vec/Option/tuple/Box codecs, Compact<u32> length prefix, EncodeAppend, DecodeLength, DecodeAll, DecodeLimit, Joiner, KeyedVec, IoReader", "std::io::Read::read_exact", "scale-info registry", "serde_json, serde_cbor"],
                 "stubs_owned_by_the_simulator": ["SimOutput (codec::Output)", "SimInput (codec::Input)", "SimRead (std::io::Read under IoReader)", "TokSer / TokDe (serde Serializer / Deserializer, SeqAccess, MapAccess)", "the medium (a byte vector)", "reference model: bits >> 8i little-endian bytes + shape framing", "metadata-driven foreign decoder", "hand-written LE reader"],
                 "absent_not_simulated": ["scheduler/threads", "clock/timers", "network topology", "process crash/restart", "allocator failure"],
+            },
+            "oracle_evaluations_that_held": exec::CHECK_IDS.iter().enumerate().map(|(i, id)| (id.to_string(), json!(st.checks_ok[i]))).collect::<serde_json::Map<String, Value>>(),
+            "oracle_to_clause": {
+                "E1": "a: encode == width/8 LE bytes of the bits (reference model), every writer entry point",
+                "E2": "b: max_encoded_len == encoded_size == encode().len() == width/8 (containers: equal to the integer twin's)",
+                "E3": "a: identical to the encoding of the underlying integer, every shape",
+                "A1": "a/c on stored bytes: EncodeAppend + DecodeLength",
+                "D1": "c, f: decode returns the model bits, also through another frac/signedness, the integer twin, the hand LE reader, the metadata-driven reader",
+                "D2": "c: exactly the record's bytes are consumed (later records stay aligned); trailing bytes left unread / rejected by decode_all",
+                "D3": "d: decoding fewer bytes fails (every strict prefix; EOF and I/O error); never Ok, never a panic",
+                "D4": "a, c, e: a flipped stored bit flips exactly that value bit; corrupted framing behaves as for the integer twin",
+                "D5": "c, d under delivery modes: short reads, EINTR, remaining_len None/Err, native read_byte are absorbed",
+                "D6": "bounded recovery: after a failed decode the intact record decodes on the next attempt",
+                "B1": "e: from_bits/to_bits and le/be/ne views are mutually inverse; inherent == Fixed-trait; Wrapping<F>",
+                "M1": "f: published scale-info metadata describes exactly one integer of the family's width and signedness",
+                "S1": "g: serde serialises as struct <Name> { bits } (Fixed and Wrapping)",
+                "S2": "g: deserialises from sequence and map presentations, own-width and widened integers",
+                "S3": "g + d: a serde stream cut short or failing gives Err",
+                "S4": "g: serde_json / serde_cbor identical to a derived { bits } struct, incl. every strict prefix of the text/bytes",
             },
             "known_findings_seen": st.known_hits,
             "seam_audit": args.seam_audit.as_ref().and_then(|p| std::fs::read_to_string(p).ok()).and_then(|t| serde_json::from_str::<Value>(&t).ok()).unwrap_or(Value::Null),
